@@ -36,7 +36,7 @@ KINDS = ("snapshot", "snapshot", "log", "metric", "span", "snaplog", "all")
 
 
 def _prog(pspec):
-    r = random.Random(pspec["seed"])
+    r = random.Random(pspec["seed"] * 7919 + 13)   # not the scenario stream again
     return hostgen.gen_program(r, pspec["name"], nfuncs=pspec["nfuncs"])
 
 
@@ -219,6 +219,12 @@ def execute(scenario, ch):
         # epoch of each event = number of config changes seen before it; events during a change are lenient
         limiters = {}
         fired_pattern = []
+        # capture stages: the snapshot is collected at the trigger and handed over when that line / invocation ends (which
+        # event that is, is C15's subject): counted per tracepoint instead of per event, and its frame is the trigger's
+        capture = {tp["id"] for tp in tps if tp.get("stage") in ("line_capture", "method_capture")}
+        cap_got = {i_: 0 for i_ in capture}
+        cap_want_strict = {i_: 0 for i_ in capture}
+        cap_want_all = {i_: 0 for i_ in capture}
         mi = 0
         for (seq, tname, event, base, line, func, ser) in rec.events:
             while mi < len(markers) and markers[mi] <= seq:
@@ -233,6 +239,15 @@ def execute(scenario, ch):
                     ws = list(payload.tracepoint.watches)
                     for x in ws:
                         ident = by_marker.get(x.strip("'\""), ident)
+                    if ident in capture:
+                        cap_got[ident] += 1
+                        tp_ = tpmap[ident]
+                        f0 = payload.frames[0] if payload.frames else None
+                        if f0 is not None and not (f0.file_name.endswith(tp_["file"]) and (
+                                f0.method_name == tp_["method"] if "method" in tp_ else f0.line_number == tp_.get("line"))):
+                            viol.append(V("capture-snapshot-top-frame-not-at-trigger", "%s: frame %s %s:%d" % (
+                                tp_, f0.method_name, f0.file_name, f0.line_number)))
+                        continue
                     if payload.frames and (payload.frames[0].line_number != line or
                                            not payload.frames[0].file_name.endswith(base)):
                         viol.append(V("snapshot-top-frame-not-at-event", "event %s:%d frame %s:%d" % (
@@ -262,6 +277,11 @@ def execute(scenario, ch):
                         lim = limiters.setdefault((tp["id"], a), RefLimiter(limits["fire_count"], 0))
                         if not lim.hit(seq):   # period 0: any increasing stamp will do
                             continue
+                    if a == "snapshot" and tp["id"] in capture:
+                        cap_want_all[tp["id"]] += 1
+                        if mi >= n_markers_final:
+                            cap_want_strict[tp["id"]] += 1
+                        continue
                     want.add((tp["id"], a))
             info["events"] += 1
             if got:
@@ -284,6 +304,12 @@ def execute(scenario, ch):
                 viol.append(V("missing-%s-%s%s" % (g_[1], "method" if "method" in tp else "line", why),
                               "at %s %s:%d %s thread %s got %s want %s (tp %s) agent errors %s" % (
                                   event, base, line, func, tname, sorted(got, key=str), sorted(want), tp, errs[:2])))
+        for i_ in sorted(capture):
+            if not cap_want_strict[i_] <= cap_got[i_] <= cap_want_all[i_]:
+                viol.append(V("missing-snapshot-capture" if cap_got[i_] < cap_want_strict[i_] else "spurious-snapshot-capture",
+                              "%s: %d deferred snapshots handed over, %d..%d triggers" % (
+                                  tpmap[i_], cap_got[i_], cap_want_strict[i_], cap_want_all[i_])))
+            info["fired"] += cap_got[i_]
         # snapshots must also arrive at the service, once each
         sent = [s[2].tracepoint.ID for s in w.service.snapshots]
         pushed = len(w.pushed)
